@@ -6,6 +6,7 @@ import PySpikeVerif.Proofs.IsiLaws
 import PySpikeVerif.Proofs.SpikeLaws
 import PySpikeVerif.Proofs.FuncLaws
 import PySpikeVerif.Model.Api
+import PySpikeVerif.Proofs.OrderLaws
 
 namespace PySpike.C07
 open PySpike PySpike.C01
@@ -116,6 +117,37 @@ theorem ratio_nonneg (c mp : Q) (hc : 0 ≤ c) (hmp : 0 ≤ mp) : 0 ≤ syncRati
   split
   · norm_num
   · exact div_nonneg hc hmp
+
+/-! ### SPIKE-Sync, spike-train order, directionality (Proofs/OrderLaws.lean, work package B2) -/
+
+/-- every SPIKE-Sync profile entry lies between 0 and its multiplicity (1 or 2) -/
+theorem sync_entry_range (s1 s2 : List Q) (ts te mt m : Q) (e : Q × Q × Q)
+    (he : e ∈ coincProfile s1 s2 ts te mt m) :
+    0 ≤ e.2.1 ∧ e.2.1 ≤ e.2.2 ∧ (e.2.2 = 1 ∨ e.2.2 = 2) := B2_coincProfile_range s1 s2 ts te mt m e he
+
+/-- SPIKE-Sync values lie in [0,1], whole recording and sub-intervals, two trains and lists -/
+theorem sync_value_range (kw : Kw) (a b : Train) (r : Q) (h : spikeSyncBi kw a b = some r) :
+    0 ≤ r ∧ r ≤ 1 := B2_spikeSyncBi_range kw a b r h
+theorem sync_multi_value_range (kw : Kw) (idx : Option (List Nat)) (L : List Train) (r : Q)
+    (h : spikeSyncMulti kw idx L = some r) : 0 ≤ r ∧ r ≤ 1 := B2_spikeSyncMulti_range kw idx L r h
+
+/-- spike-train order lies in [-1,1] -/
+theorem order_value_range (kw : Kw) (a b : Train) :
+    -1 ≤ spikeTrainOrderBi kw true a b ∧ spikeTrainOrderBi kw true a b ≤ 1 :=
+  B2_spikeTrainOrderBi_range kw a b
+theorem order_multi_value_range (kw : Kw) (idx : Option (List Nat)) (L : List Train) :
+    -1 ≤ spikeTrainOrderMulti kw idx L ∧ spikeTrainOrderMulti kw idx L ≤ 1 :=
+  B2_spikeTrainOrderMulti_range kw idx L
+
+/-- SPIKE-Sync gives the same profile when its two arguments are swapped -/
+theorem sync_profile_symm (s1 s2 : List Q) (ts te mt m : Q)
+    (h1 : s1.Pairwise (· < ·)) (h2 : s2.Pairwise (· < ·)) :
+    coincProfile s2 s1 ts te mt m = coincProfile s1 s2 ts te mt m := coincProfile_swap s1 s2 ts te mt m h1 h2
+
+/-- un-normalised directionality of a train with itself is 0 -/
+theorem directionality_self_zero (kw : Kw) (a : Train) : spikeDirectionality kw false a a = 0 := by
+  have h := B2_spikeDirectionality_swap kw a a rfl rfl
+  linarith
 
 /-! non-vacuity -/
 example : ValidTrain exA ∧ ValidTrain exB := ⟨⟨by decide, by decide, by decide⟩, ⟨by decide, by decide, by decide⟩⟩
